@@ -481,4 +481,226 @@ theorem stale_runR {s : State} (h : Inv s) {n : Name} {g : Nat} (hh : s.handles 
     exact ih (inv_stepR h o) (by rw [handles_stepR h o n ho]; exact hh) (dead_stepR h hd o)
       (fun op hop => hno op (by simp [hop]))
 
+
+/-! ### direct use of the pool (New / Get / controller Close in any order) -/
+
+/-- Invariant of every state a direct pool history can reach (fixed code). -/
+structure PInv (s : State) : Prop where
+  /-- a pool entry is a fully constructed, open, unclosed controller stored under its own name -/
+  entry : ∀ n g, s.conns n = some g →
+    g < s.next ∧ s.ctrlTarget g = n ∧ s.clientSet g = true ∧ s.ctrlClosed g = false ∧ s.connOpen g = true
+  /-- every open connection is the pool entry of its name (none is lost) -/
+  openIn : ∀ g, s.connOpen g = true → s.conns (s.ctrlTarget g) = some g
+  /-- controllers handed out are constructed, and open until they are closed -/
+  issuedOk : ∀ g, g ∈ s.issued → g < s.next ∧ s.clientSet g = true ∧ (s.ctrlClosed g = false → s.connOpen g = true)
+  closed_lt : ∀ g, s.ctrlClosed g = true → g < s.next
+  client_lt : ∀ g, s.clientSet g = true → g < s.next
+  calls_open : ∀ c g, s.calls c = some g → s.connOpen g = true
+  calls_lt : ∀ c g, s.calls c = some g → c < s.nextCall
+
+theorem pinv_init : PInv init := by
+  constructor <;> simp [init]
+
+theorem PInv.open_lt {s : State} (h : PInv s) {g : Nat} (ho : s.connOpen g = true) : g < s.next :=
+  (h.entry _ g (h.openIn g ho)).1
+
+/-- state after a successful `pool.New` of a name without entry -/
+def pnewOkState (s : State) (n : Name) : State :=
+  { s with next := s.next + 1, conns := upd s.conns n (some s.next), ctrlTarget := upd s.ctrlTarget s.next n,
+           clientSet := upd s.clientSet s.next true, connOpen := upd s.connOpen s.next true,
+           issued := s.issued ++ [s.next] }
+
+theorem pnew_absent {s : State} (h : PInv s) (n : Name) (ok : Bool) (hn : s.conns n = none) :
+    pnew true s n ok =
+      if ok then (pnewOkState s n, .add .ok (some .absent))
+      else (failedState s n, .add .conn (some .absent)) := by
+  have hcl : s.clientSet s.next = false := by
+    cases hc : s.clientSet s.next with
+    | false => rfl
+    | true => have := h.client_lt _ hc; omega
+  cases ok with
+  | true => simp [pnew, poolNew, poolReserve, hn, poolFinish, poolGet, pnewOkState, hcl]
+  | false => simp [pnew, poolNew, poolReserve, hn, poolFinish, poolGet, failedState, hcl]
+
+theorem pnew_present (s : State) (n : Name) (ok : Bool) (g : Nat) (hn : s.conns n = some g) :
+    pnew true s n ok = (s, .add .dialed none) := by
+  simp [pnew, poolNew, poolReserve, hn]
+
+theorem pinv_pnewOk {s : State} (h : PInv s) (n : Name) (hn : s.conns n = none) : PInv (pnewOkState s n) := by
+  have hclosed : s.ctrlClosed s.next = false := by
+    cases hc : s.ctrlClosed s.next with
+    | false => rfl
+    | true => have := h.closed_lt _ hc; omega
+  constructor
+  · intro m g hg
+    by_cases hm : m = n
+    · subst hm
+      simp [pnewOkState] at hg; subst hg
+      simp [pnewOkState, hclosed]
+    · simp [pnewOkState, hm] at hg
+      have e := h.entry m g hg
+      have hne : g ≠ s.next := by omega
+      simp [pnewOkState, hne, e]; omega
+  · intro g hg
+    by_cases hgn : g = s.next
+    · subst hgn; simp [pnewOkState]
+    · simp [pnewOkState, hgn] at hg
+      have o := h.openIn g hg
+      have hne : s.ctrlTarget g ≠ n := by intro e; rw [e, hn] at o; cases o
+      simp [pnewOkState, hgn, hne, o]
+  · intro g hg
+    simp [pnewOkState] at hg
+    cases hg with
+    | inl hg =>
+      have i := h.issuedOk g hg
+      have hne : g ≠ s.next := by omega
+      simp [pnewOkState, hne, i.2.1]
+      exact ⟨by omega, i.2.2⟩
+    | inr hg => subst hg; simp [pnewOkState]
+  · intro g hg; simp [pnewOkState] at hg ⊢; have := h.closed_lt g hg; omega
+  · intro g hg
+    by_cases hgn : g = s.next
+    · simp [pnewOkState, hgn]
+    · simp [pnewOkState, hgn] at hg ⊢; have := h.client_lt g hg; omega
+  · intro c g hg
+    simp [pnewOkState] at hg ⊢
+    have := h.calls_open c g hg
+    by_cases hgn : g = s.next <;> simp [hgn, this]
+  · intro c g hg; simp [pnewOkState] at hg ⊢; exact h.calls_lt c g hg
+
+theorem pinv_failed {s : State} (h : PInv s) (n : Name) (hn : s.conns n = none) : PInv (failedState s n) := by
+  have e : failedState s n = { s with next := s.next + 1, ctrlTarget := upd s.ctrlTarget s.next n } := by
+    simp [failedState, upd_upd_none _ _ _ hn]
+  rw [e]
+  constructor
+  · intro m g hg
+    have x := h.entry m g hg
+    have hne : g ≠ s.next := by omega
+    simp [hne, x]; omega
+  · intro g hg
+    have hlt := h.open_lt hg
+    have hne : g ≠ s.next := by omega
+    simp [hne]; exact h.openIn g hg
+  · intro g hg
+    have i := h.issuedOk g hg
+    exact ⟨by simp; omega, i.2.1, i.2.2⟩
+  · intro g hg; have := h.closed_lt g hg; simp; omega
+  · intro g hg; have := h.client_lt g hg; simp; omega
+  · exact h.calls_open
+  · exact h.calls_lt
+
+/-- state after closing the controller `g` -/
+def closedState (s : State) (g : Nat) : State :=
+  { s with ctrlClosed := upd s.ctrlClosed g true, conns := upd s.conns (s.ctrlTarget g) none,
+           connOpen := upd s.connOpen g false,
+           calls := fun c => if s.calls c = some g then none else s.calls c }
+
+theorem pclose_live {s : State} (h : PInv s) (k g : Nat) (hk : s.issued[k]? = some g) (hc : s.ctrlClosed g = false) :
+    pclose s k = (closedState s g, .closed) := by
+  have i := h.issuedOk g (List.mem_of_getElem? hk)
+  simp [pclose, hk, ctrlClose, hc, i.2.1, closedState]
+
+theorem pclose_twice (s : State) (k g : Nat) (hk : s.issued[k]? = some g) (hc : s.ctrlClosed g = true) :
+    pclose s k = (s, .panic) := by
+  simp [pclose, hk, ctrlClose, hc]
+
+theorem pclose_nosuch (s : State) (k : Nat) (hk : s.issued[k]? = none) : pclose s k = (s, .noSuch) := by
+  simp [pclose, hk]
+
+theorem pinv_closed {s : State} (h : PInv s) (g : Nat) (hi : g ∈ s.issued) (hc : s.ctrlClosed g = false) :
+    PInv (closedState s g) := by
+  have i := h.issuedOk g hi
+  have ho : s.connOpen g = true := i.2.2 hc
+  have own : s.conns (s.ctrlTarget g) = some g := h.openIn g ho
+  constructor
+  · intro m g' hg'
+    by_cases hm : m = s.ctrlTarget g
+    · simp [closedState, hm] at hg'
+    · simp [closedState, hm] at hg'
+      have e := h.entry m g' hg'
+      have hne : g' ≠ g := by intro x; subst x; exact hm e.2.1.symm
+      simp [closedState, hne, e]
+  · intro g' hg'
+    by_cases hgg : g' = g
+    · simp [closedState, hgg] at hg'
+    · simp [closedState, hgg] at hg'
+      have o := h.openIn g' hg'
+      have hne : s.ctrlTarget g' ≠ s.ctrlTarget g := by
+        intro x; rw [x, own] at o; cases o; exact hgg rfl
+      simp [closedState, hne, o]
+  · intro g' hg'
+    simp [closedState] at hg'
+    have i' := h.issuedOk g' hg'
+    refine ⟨by simp [closedState]; exact i'.1, by simp [closedState]; exact i'.2.1, ?_⟩
+    by_cases hgg : g' = g
+    · simp [closedState, hgg]
+    · simp [closedState, hgg]; exact i'.2.2
+  · intro g' hg'
+    by_cases hgg : g' = g
+    · simp [closedState, hgg]; exact i.1
+    · simp [closedState, hgg] at hg' ⊢; exact h.closed_lt g' hg'
+  · intro g' hg'; simp [closedState] at hg' ⊢; exact h.client_lt g' hg'
+  · intro c g' hg'
+    simp [closedState] at hg' ⊢
+    have hne : g' ≠ g := by intro e; subst e; exact hg'.1 hg'.2
+    simp [hne]; exact h.calls_open c g' hg'.2
+  · intro c g' hg'
+    simp [closedState] at hg' ⊢
+    exact h.calls_lt c g' hg'.2
+
+theorem pinv_handles {s : State} (h : PInv s) (f : Name → Option Nat) : PInv { s with handles := f } :=
+  ⟨h.entry, h.openIn, h.issuedOk, h.closed_lt, h.client_lt, h.calls_open, h.calls_lt⟩
+
+theorem pinv_call {s : State} (h : PInv s) (n : Name) : PInv (call s n).1 := by
+  unfold call
+  split
+  · exact h
+  · rename_i g hg
+    split
+    · rename_i ho
+      refine ⟨h.entry, h.openIn, h.issuedOk, h.closed_lt, h.client_lt, ?_, ?_⟩
+      · intro c g' hc
+        by_cases hcc : c = s.nextCall
+        · simp [hcc] at hc; subst hc; exact ho
+        · simp [hcc] at hc; exact h.calls_open c g' hc
+      · intro c g' hc
+        by_cases hcc : c = s.nextCall
+        · simp [hcc]
+        · simp [hcc] at hc ⊢; have := h.calls_lt c g' hc; omega
+    · exact h
+
+theorem pinv_stepP {s : State} (h : PInv s) (op : POp) : PInv (stepP true s op).1 := by
+  cases op with
+  | new n ok =>
+    simp only [stepP]
+    cases hn : s.conns n with
+    | some g => rw [pnew_present s n ok g hn]; exact h
+    | none =>
+      rw [pnew_absent h n ok hn]
+      cases ok with
+      | true => exact pinv_pnewOk h n hn
+      | false => exact pinv_failed h n hn
+  | close k =>
+    simp only [stepP]
+    cases hk : s.issued[k]? with
+    | none => rw [pclose_nosuch s k hk]; exact h
+    | some g =>
+      cases hc : s.ctrlClosed g with
+      | true => rw [pclose_twice s k g hk hc]; exact h
+      | false => rw [pclose_live h k g hk hc]; exact pinv_closed h g (List.mem_of_getElem? hk) hc
+  | get n =>
+    simp only [stepP]; unfold GB.C16.get
+    split
+    · exact pinv_handles h _
+    · exact h
+  | stream n => exact h
+  | call n => exact pinv_call h n
+
+theorem pinv_runP {s : State} (h : PInv s) (ops : List POp) : PInv (runP true s ops).1 := by
+  induction ops generalizing s with
+  | nil => exact h
+  | cons o os ih => simp only [runP, runWith]; exact ih (pinv_stepP h o)
+
+theorem pinv_afterP (ops : List POp) : PInv (afterP true ops) := pinv_runP pinv_init ops
+
 end GB.C16
